@@ -81,10 +81,10 @@ def obligations(tier, ctx):
             continue
         short = key.split(".")[-2][:10] + "_" + key.split(".")[-1]
         for be in (("P",) if (tier == "quick" and key.split(".")[-1] != "TextContent") else ("P", "F")):
-            slim = 70000 if be == "P" else 5000
+            slim = consts.MAX_SIZE if be == "P" else 5000
             for pat in ((5,) if tier == "quick" else (5, 15)):
                 obs.append(Ob(name=f"bigstr_{short}_{be}_p{pat}", params=[("k", "int")], pre=[f"0 <= k < {len(consts.size_cases(slim, extra=ENVS))}"], call=f"H.lossless_big({key!r}, k, 0, {pat}, {slim})", backend=be, timeout=1200,
-                              family="size: string leaves of c-1, c, c+1 characters (c: integer constants of the source and environment sizes; <= 70000 under Pydantic, <= 5000 under the pure-Python backend), both backends"))
+                              family="size: string leaves of c-1, c, c+1 characters (c: integer constants of the source and environment sizes; <= 2 MiB under Pydantic, <= 5000 under the pure-Python backend), both backends"))
     obs.append(Ob(name="invariant_root", params=[("uri", "str")], pre=["len(uri) <= 9"], call="H.invariant_root(uri)", backend="F", timeout=200, family="documented invariants (fallback side)"))
     obs.append(Ob(name="invariant_completion", params=[("n", "int")], pre=["n in (0, 1, 100, 101, 150)"], call="H.invariant_completion(n)", backend="F", timeout=200, family="documented invariants (fallback side)"))
     return obs
